@@ -551,3 +551,5 @@ func (s *sys) enter(h uint64, r uint32) string {
 		return "entered:no-response"
 	}
 }
+
+func gchanPoint(ctx context.Context, name string) { gchan.VerifPoint(ctx, name) }
